@@ -7,7 +7,9 @@ import (
 	"strconv"
 	"strings"
 
+	"github.com/opsidian/parsley/ast"
 	"github.com/opsidian/parsley/combinator"
+	"github.com/opsidian/parsley/parser"
 	"github.com/opsidian/parsley/parsley"
 	"github.com/opsidian/parsley/text"
 	"github.com/opsidian/parsley/text/terminal"
@@ -25,6 +27,23 @@ import (
 type wrapper struct {
 	hasL, hasR bool
 	l, r       text.WsMode
+	// kind of the wrapped token: 0 a single rune; 1 an OPTIONAL rune, Choice(Rune(c), parser.Empty()) — when absent the
+	// token is an empty match, a bare position; 2 a two-rune PHRASE, SeqOf(Rune(c), Rune('x')) — a non-terminal whose
+	// failure can lie behind its start
+	kind int
+}
+
+var kindNames = []string{"", "?", "x"}
+
+// tokenParser builds token i of the given kind.
+func tokenParser(i, kind int) parsley.Parser {
+	switch kind {
+	case 1:
+		return combinator.Choice(terminal.Rune(tokenRunes[i]), parser.Empty())
+	case 2:
+		return combinator.SeqOf(terminal.Rune(tokenRunes[i]), terminal.Rune('x')).Bind(concatInterp)
+	}
+	return terminal.Rune(tokenRunes[i])
 }
 
 func (w wrapper) String() string { return w.around("t") }
@@ -32,6 +51,7 @@ func (w wrapper) String() string { return w.around("t") }
 var modeNames = map[text.WsMode]string{text.WsNone: "WsNone", text.WsSpaces: "WsSpaces", text.WsSpacesNl: "WsSpacesNl", text.WsSpacesForceNl: "WsSpacesForceNl"}
 
 func (w wrapper) around(t string) string {
+	t += kindNames[w.kind]
 	switch {
 	case w.hasL && w.hasR:
 		return fmt.Sprintf("RightTrim(LeftTrim(%s,%s),%s)", t, modeNames[w.l], modeNames[w.r])
@@ -69,7 +89,7 @@ var tokenRunes = []rune{'a', 'b', 'c'}
 func buildSeq(ws []wrapper) parsley.Parser {
 	ps := make([]parsley.Parser, len(ws))
 	for i, w := range ws {
-		var p parsley.Parser = terminal.Rune(tokenRunes[i])
+		p := tokenParser(i, w.kind)
 		if w.hasL {
 			p = text.LeftTrim(p, w.l)
 		}
@@ -134,6 +154,7 @@ type c10Expect struct {
 	errText  string // exact expected error text ("" = any error: un-owned whitespace makes the next token / end of input fail)
 	tokStart []int
 	tokEnd   []int
+	absent   []bool // optional token not there: the node is an empty match
 }
 
 // c10Spec is the left-to-right specification: each trim sees the maximal run at its position.
@@ -150,15 +171,31 @@ func c10Spec(ws []wrapper, d []byte) c10Expect {
 		if w.hasL {
 			end, nl := runAt(d, pos)
 			if ok, at := modeVerdict(w.l, pos, end, nl); !ok {
+				if w.kind != 1 && (end >= len(d) || d[end] != byte(tokenRunes[i])) {
+					// the run is not next to the token at all (something else follows it): the statement speaks of runs
+					// next to a token; which error is reported here is not specified
+					return c10Expect{}
+				}
 				return wsFail(w.l, at)
 			}
 			pos = end
 		}
-		if pos >= len(d) || d[pos] != byte(tokenRunes[i]) {
-			return c10Expect{} // whitespace no trim owns (or missing token): some error
+		present := pos < len(d) && d[pos] == byte(tokenRunes[i])
+		switch {
+		case w.kind == 1 && !present:
+			// an absent optional token: an empty match at this position
+			e.tokStart = append(e.tokStart, pos)
+			e.absent = append(e.absent, true)
+		case !present || (w.kind == 2 && (pos+1 >= len(d) || d[pos+1] != 'x')):
+			return c10Expect{} // whitespace no trim owns (or a missing / incomplete token): some error
+		default:
+			e.tokStart = append(e.tokStart, pos)
+			e.absent = append(e.absent, false)
+			pos++
+			if w.kind == 2 {
+				pos++
+			}
 		}
-		e.tokStart = append(e.tokStart, pos)
-		pos++
 		tokEnd := pos
 		if w.hasR {
 			end, nl := runAt(d, pos)
@@ -197,7 +234,7 @@ func mkCase(ws []wrapper, input string, alt bool) c10Case {
 			}
 			return 0
 		}
-		c.Codes = append(c.Codes, [5]int{b(w.hasL), int(w.l), b(w.hasR), int(w.r), 0})
+		c.Codes = append(c.Codes, [5]int{b(w.hasL), int(w.l), b(w.hasR), int(w.r), w.kind})
 	}
 	return c
 }
@@ -261,6 +298,21 @@ func c10One(res *explore.Result, ws []wrapper, p parsley.Parser, input string, a
 			return
 		}
 		for i, c := range inner.Children() {
+			if exp.absent[i] {
+				// an empty match is a bare position: it reads as the end of the run a right trim skipped
+				if _, isEmpty := c.(ast.EmptyNode); !isEmpty || int(c.ReaderPos())-base != exp.tokEnd[i] {
+					res.Violate("wrong-token-span", fmt.Sprintf("%s: token %d is absent; node %v<%d,%d>, expected an empty match ending at %d", where, i, c.Token(), int(c.Pos())-base, int(c.ReaderPos())-base, exp.tokEnd[i]), cs)
+					return
+				}
+				continue
+			}
+			if ws[i].kind == 2 {
+				if _, isNT := c.(parsley.NonTerminalNode); !isNT || int(c.Pos())-base != exp.tokStart[i] || int(c.ReaderPos())-base != exp.tokEnd[i] {
+					res.Violate("wrong-token-span", fmt.Sprintf("%s: phrase %d is %v<%d,%d>, expected <%d,%d> (own start, end moved only by a right trim)", where, i, c.Token(), int(c.Pos())-base, int(c.ReaderPos())-base, exp.tokStart[i], exp.tokEnd[i]), cs)
+					return
+				}
+				continue
+			}
 			lit, isLit := c.(parsley.LiteralNode)
 			if !isLit || lit.Value() != tokenRunes[i] || int(c.Pos())-base != exp.tokStart[i] || int(c.ReaderPos())-base != exp.tokEnd[i] {
 				res.Violate("wrong-token-span", fmt.Sprintf("%s: token %d is %v<%d,%d>, expected %q<%d,%d> (own start, end moved only by a right trim)", where, i, c.Token(), int(c.Pos())-base, int(c.ReaderPos())-base, string(tokenRunes[i]), exp.tokStart[i], exp.tokEnd[i]), cs)
@@ -286,6 +338,7 @@ func wsStrings(maxLen int) []string {
 }
 
 type c10Plan struct {
+	kinds    bool // every assignment of token kinds {rune, optional rune, two-rune phrase} except all-rune; every token text variant
 	alt      bool
 	k        int
 	wrappers []wrapper
@@ -296,9 +349,11 @@ type c10Plan struct {
 func c10Plans(tier string) []c10Plan {
 	all := allWrappers()
 	if tier == "thorough" {
-		return []c10Plan{{false, 1, all, 3, 0}, {false, 2, all, 2, 3}, {false, 3, reducedWrappers, 1, 2}, {true, 2, all, 1, 3}}
+		return []c10Plan{{false, false, 1, all, 3, 0}, {false, false, 2, all, 2, 3}, {false, false, 3, reducedWrappers, 1, 2}, {false, true, 2, all, 1, 3},
+			{true, false, 1, all, 2, 0}, {true, false, 2, all, 1, 2}, {true, false, 3, reducedWrappers, 1, 1}}
 	}
-	return []c10Plan{{false, 1, all, 2, 0}, {false, 2, all, 1, 2}, {false, 3, reducedWrappers, 1, 1}, {true, 2, all, 1, 2}}
+	return []c10Plan{{false, false, 1, all, 2, 0}, {false, false, 2, all, 1, 2}, {false, false, 3, reducedWrappers, 1, 1}, {false, true, 2, all, 1, 2},
+		{true, false, 1, all, 1, 0}, {true, false, 2, all, 1, 1}}
 }
 
 func c10Run(env *explore.Env) *explore.Result {
@@ -316,6 +371,15 @@ func c10Run(env *explore.Env) *explore.Result {
 					return
 				}
 				ws := append([]wrapper{}, combo...)
+				if pl.kinds {
+					plain := true
+					for _, w := range ws {
+						plain = plain && w.kind == 0
+					}
+					if plain {
+						return // the all-rune assignment is the subject of the other plans
+					}
+				}
 				p := buildSeq(ws)
 				if pl.alt {
 					p = buildSeqAlt(ws)
@@ -326,21 +390,42 @@ func c10Run(env *explore.Env) *explore.Result {
 				var recG func(g int)
 				recG = func(g int) {
 					if g == pl.k+1 {
-						var sb strings.Builder
-						for j := 0; j <= pl.k; j++ {
-							sb.WriteString(gaps[j])
-							if j < pl.k {
-								sb.WriteRune(tokenRunes[j])
+						// every text variant of every token: an optional token present / absent, a phrase complete / cut short
+						texts := make([]string, pl.k)
+						var recT func(j int)
+						recT = func(j int) {
+							if j == pl.k {
+								var sb strings.Builder
+								for t := 0; t <= pl.k; t++ {
+									sb.WriteString(gaps[t])
+									if t < pl.k {
+										sb.WriteString(texts[t])
+									}
+								}
+								in := sb.String()
+								c10One(res, ws, p, in, pl.alt, false)
+								res.Add("traces", 1)
+								if strings.Contains(in, "\n") {
+									c10One(res, ws, p, strings.ReplaceAll(in, "\n", "\r\n"), pl.alt, false)
+									res.Add("traces", 1)
+									res.Add("crlf_variants", 1)
+								}
+								return
+							}
+							c := string(tokenRunes[j])
+							variants := []string{c}
+							switch ws[j].kind {
+							case 1:
+								variants = []string{c, ""}
+							case 2:
+								variants = []string{c + "x", c}
+							}
+							for _, v := range variants {
+								texts[j] = v
+								recT(j + 1)
 							}
 						}
-						in := sb.String()
-						c10One(res, ws, p, in, pl.alt, false)
-						res.Add("traces", 1)
-						if strings.Contains(in, "\n") {
-							c10One(res, ws, p, strings.ReplaceAll(in, "\n", "\r\n"), pl.alt, false)
-							res.Add("traces", 1)
-							res.Add("crlf_variants", 1)
-						}
+						recT(0)
 						return
 					}
 					menu := inner
@@ -366,8 +451,15 @@ func c10Run(env *explore.Env) *explore.Result {
 				return
 			}
 			for _, w := range pl.wrappers {
-				combo[i] = w
-				recW(i + 1)
+				kinds := []int{0}
+				if pl.kinds {
+					kinds = []int{0, 1, 2}
+				}
+				for _, kd := range kinds {
+					w.kind = kd
+					combo[i] = w
+					recW(i + 1)
+				}
 			}
 		}
 		recW(0)
@@ -389,7 +481,7 @@ func c10Replay(raw json.RawMessage) *explore.Result {
 	}
 	var ws []wrapper
 	for _, code := range c.Codes {
-		ws = append(ws, wrapper{hasL: code[0] == 1, l: text.WsMode(code[1]), hasR: code[2] == 1, r: text.WsMode(code[3])})
+		ws = append(ws, wrapper{hasL: code[0] == 1, l: text.WsMode(code[1]), hasR: code[2] == 1, r: text.WsMode(code[3]), kind: code[4]})
 	}
 	p := buildSeq(ws)
 	if c.Alt && len(ws) == 2 {
